@@ -51,7 +51,7 @@ def install(E):
     b.entries["NotImplementedError"] = ExtClass("NotImplementedError", bases=[b.entries["RuntimeError"]])
     b.entries["RecursionError"] = ExtClass("RecursionError", bases=[b.entries["RuntimeError"]])
     for c in list(b.entries.values()):
-        c.ns["__call__"] = Builtin("exc", lambda E, cls, *a, **k: ExcVal(cls, list(a)))
+        c.ns["__construct__"] = Builtin("exc", lambda E, cls, *a, **k: ExcVal(cls, list(a)))
     b.entries["object"] = OBJECT_CLS
     for name, fn in PY_BUILTINS.items():
         b.entries[name] = Builtin(name, fn)
